@@ -9,7 +9,7 @@ From Coq Require Import List NArith Bool.
 From Coq Require Import Strings.Byte.
 From GoBT Require Import lib.Bytes lib.VarInt lib.Sha256 model.Tx spec.DigestSpec model.SigHash
   model.SigHashWire proofs.SigHashProofs proofs.AuditASigHash model.SigHeap proofs.SigHeapProofs
-  proofs.SigHeapAliasProofs.
+  proofs.SigHeapAliasProofs proofs.SigHashVerbatimProofs.
 Import ListNotations.
 Local Open Scope N_scope. Local Open Scope bool_scope.
 
@@ -169,6 +169,34 @@ Theorem C03_legacy_ignores_other_unlocking_scripts : forall t1 t2 i ht inp1 sc,
   fst (calc_input_preimage_legacy t1 i ht) = fst (calc_input_preimage_legacy t2 i ht).
 Proof. exact legacy_ignores_unlocking_scripts. Qed.
 Print Assumptions C03_legacy_ignores_other_unlocking_scripts.
+
+(** the script code is taken VERBATIM (round 8): whatever bytes the recorded previous script of the signed input
+    consists of - OP_CODESEPARATOR, OP_RETURN, pushes that do not fit, the signature itself - the preimage is the
+    constant of the SINGLE bug or contains exactly those bytes behind their CompactSize length; nothing is stripped,
+    cut or re-encoded (code-separator stripping is the caller's job).  First on the specification, for every script
+    code and every 32-bit type; then on the model of CalcInputPreimageLegacy. *)
+Theorem C03_spec_preimage_contains_script_code : forall sc tx nIn ht p,
+  legacy_signature_hash sc tx nIn ht = LegacyPreimage p ->
+  exists a b, p = a ++ ser_script sc ++ b.
+Proof. exact legacy_preimage_contains_script_code. Qed.
+Print Assumptions C03_spec_preimage_contains_script_code.
+
+Theorem C03_script_code_is_verbatim : forall t i ht inp sc,
+  wf_tx t -> ht < 256 -> i + 1 < two32 ->
+  nth_error (tx_ins t) (N.to_nat i) = Some inp -> in_script inp = Some sc ->
+  fst (calc_input_preimage_legacy t i ht) = SOk default_hex \/
+  exists a b, fst (calc_input_preimage_legacy t i ht) = SOk (a ++ varint_bytes (lenN sc) ++ sc ++ b).
+Proof. exact legacy_model_script_code_verbatim. Qed.
+Print Assumptions C03_script_code_is_verbatim.
+
+(** ... on a script code with OP_CODESEPARATOR as an opcode (twice) and inside push data: all seven bytes are there *)
+Example C03_example_codeseparators_kept :
+  let sc := [x51; xab; x75; x02; xab; xab; xab] in
+  let tx := mkTransaction 1 [mkTxIn (mkOutPoint (repeat x11 32) 0) [x51] 4294967295] [mkTxOut 1 [x51]] 0 in
+  legacy_signature_hash sc tx 0 1 =
+  LegacyPreimage (u32 1 ++ [x01] ++ repeat x11 32 ++ u32 0 ++ [x07] ++ sc ++ u32 4294967295 ++
+                  [x01] ++ u64 1 ++ [x01; x51] ++ u32 0 ++ u32 1).
+Proof. exact script_code_with_codeseparators_is_kept. Qed.
 
 (** errors of the guards (the property quantifies over in-range indices; these are what the code
     does otherwise) *)
